@@ -1066,13 +1066,12 @@ func c09R4(c *Ctx, r *Report, rule string) {
 		for _, ci := range callsIn(fn) {
 			if isInvoke(ci, "ReadFrom") {
 				n++
-				par := fn.Parent()
-				good := par != nil && fname(par) == "layer4.(*Server).servePacket"
-				if good {
-					good = false
-					for _, b := range par.Blocks {
+				// the reader: a closure of servePacket, or a function of its own, started with go by servePacket outside every loop
+				good := false
+				if sp := c.Fn("layer4.(*Server).servePacket"); sp != nil {
+					for _, b := range sp.Blocks {
 						for _, in := range b.Instrs {
-							if g, ok := in.(*ssa.Go); ok && closureOf(g.Call.Value) == fn && !inLoop(b) {
+							if g, ok := in.(*ssa.Go); ok && (closureOf(g.Call.Value) == fn || g.Call.StaticCallee() == fn) && !inLoop(b) {
 								good = true
 							}
 						}
@@ -1292,6 +1291,7 @@ func c09R6(c *Ctx, r *Report, rule string) {
 		fn      *ssa.Function
 	}
 	var sends []sendSite
+	scanned := map[*ssa.Function]bool{}
 	var scan func(f *ssa.Function)
 	scan = func(f *ssa.Function) {
 		for _, b := range f.Blocks {
@@ -1310,6 +1310,15 @@ func c09R6(c *Ctx, r *Report, rule string) {
 		}
 		for _, a := range f.AnonFuncs {
 			scan(a)
+		}
+		// goroutines started as functions of their own
+		for _, ci := range callsIn(f) {
+			if g, ok := ci.(*ssa.Go); ok {
+				if cal := g.Call.StaticCallee(); cal != nil && cal.Pkg == f.Pkg && cal.Parent() == nil && !scanned[cal] {
+					scanned[cal] = true
+					scan(cal)
+				}
+			}
 		}
 	}
 	scan(fn)
